@@ -1,21 +1,157 @@
-//! D — decoders of suite M (DESIGN.md §3.1)
+//! D — decoders of suite M (DESIGN.md §3.1): D-strict, D-valid, D-round in one statement per decoder:
+//!
+//!   deserialize(input) is Ok  <=>  input.len() == L  &&  every group-element / scalar field is valid,
+//!   and then serialize(decoded) == input.
+//!
+//! Lengths are concrete per case (a symbolic slice length makes every copy loop run to the unwind bound),
+//! contents are symbolic. Layouts are typed in from RFC 9807 §4-§6 / the crate's documented state layouts.
 use super::model::*;
 use super::vk::*;
-use crate::{CredentialFinalization, ServerLogin};
+use crate::{
+    ClientLogin, ClientRegistration, CredentialFinalization, CredentialRequest, CredentialResponse,
+    RegistrationRequest, RegistrationResponse, RegistrationUpload, ServerLogin, ServerRegistration, ServerSetup,
+};
 
-harnesses! {
-    fn d_strict_credential_finalization [unwind = 80] {
-        let buf = any_bytes::<72>();
-        let len = any_usize();
-        assume(len <= 72);
-        let r = CredentialFinalization::<M>::deserialize(&buf[..len]);
-        match r {
-            Ok(x) => {
-                check!(len == 8, "only the exact length decodes");
-                check!(eq_bytes(&x.serialize(), &buf[..len]), "re-encodes to the input");
-                cover!(true, "ok");
-            }
-            Err(_) => { check!(len != 8, "every string of the exact length decodes"); cover!(true, "err"); }
+pub fn v_elem(b: u8) -> bool {
+    b >= 1 && b <= 250
+}
+pub fn v_scalar(b: u8) -> bool {
+    b >= 1 && b <= 250
+}
+pub fn v_pk(b: &[u8]) -> bool {
+    b[0] == PK_TAG && b[1] >= 1 && b[1] <= 240
+}
+pub fn v_sk(b: u8) -> bool {
+    b >= 1 && b <= 240
+}
+
+pub const L_REG_REQ: usize = 1;
+pub const L_REG_RESP: usize = 3;
+pub const L_REG_UPLOAD: usize = 50;
+pub const L_CRED_REQ: usize = 35;
+pub const L_CRED_RESP: usize = 117;
+pub const L_CRED_FIN: usize = 8;
+pub const L_SETUP: usize = 10;
+pub const L_SETUP_XK: usize = 11;
+pub const L_CLIENT_REG: usize = 2;
+pub const L_CLIENT_LOGIN: usize = 69;
+pub const L_SERVER_LOGIN: usize = 24;
+
+#[inline(always)]
+fn verdict<T, E>(input: &[u8], l: usize, valid: bool, r: Result<T, E>, reenc: impl FnOnce(&T) -> bool) {
+    let expect_ok = input.len() == l && valid;
+    match r {
+        Ok(x) => {
+            check!(expect_ok, "decoder accepts only the exact length with all fields valid");
+            check!(reenc(&x), "decoded value re-encodes to the input");
+            cover!(true, "ok");
+            core::mem::forget(x);
+        }
+        Err(e) => {
+            check!(!expect_ok, "every well-formed encoding decodes");
+            cover!(true, "err");
+            core::mem::forget(e);
         }
     }
+}
+
+fn reg_req(i: &[u8]) {
+    let valid = i.len() >= 1 && v_elem(i[0]);
+    verdict(i, L_REG_REQ, valid, RegistrationRequest::<M>::deserialize(i), |x| eq_bytes(&x.serialize(), i));
+}
+fn reg_resp(i: &[u8]) {
+    let valid = i.len() >= 3 && v_elem(i[0]) && v_pk(&i[1..3]);
+    verdict(i, L_REG_RESP, valid, RegistrationResponse::<M>::deserialize(i), |x| eq_bytes(&x.serialize(), i));
+}
+fn reg_upload(i: &[u8]) {
+    let valid = i.len() >= 2 && v_pk(&i[0..2]);
+    verdict(i, L_REG_UPLOAD, valid, RegistrationUpload::<M>::deserialize(i), |x| eq_bytes(&x.serialize(), i));
+}
+fn server_registration(i: &[u8]) {
+    let valid = i.len() >= 2 && v_pk(&i[0..2]);
+    verdict(i, L_REG_UPLOAD, valid, ServerRegistration::<M>::deserialize(i), |x| eq_bytes(&x.serialize(), i));
+}
+fn cred_req(i: &[u8]) {
+    let valid = i.len() >= 35 && v_elem(i[0]) && v_pk(&i[33..35]);
+    verdict(i, L_CRED_REQ, valid, CredentialRequest::<M>::deserialize(i), |x| eq_bytes(&x.serialize(), i));
+}
+fn cred_resp(i: &[u8]) {
+    let valid = i.len() >= 109 && v_elem(i[0]) && v_pk(&i[107..109]);
+    verdict(i, L_CRED_RESP, valid, CredentialResponse::<M>::deserialize(i), |x| eq_bytes(&x.serialize(), i));
+}
+fn cred_fin(i: &[u8]) {
+    verdict(i, L_CRED_FIN, true, CredentialFinalization::<M>::deserialize(i), |x| eq_bytes(&x.serialize(), i));
+}
+fn setup(i: &[u8]) {
+    let valid = i.len() >= 10 && v_sk(i[8]) && v_sk(i[9]);
+    verdict(i, L_SETUP, valid, ServerSetup::<M>::deserialize(i), |x| eq_bytes(&x.serialize(), i));
+}
+fn setup_xk(i: &[u8]) {
+    let valid = i.len() >= 11 && i[8] == 0xe7 && v_sk(i[9]) && v_sk(i[10]);
+    xk_reset(0, 0);
+    verdict(i, L_SETUP_XK, valid, ServerSetup::<M, MSecretKey>::deserialize(i), |x| eq_bytes(&x.serialize(), i));
+}
+fn client_reg(i: &[u8]) {
+    let valid = i.len() >= 2 && v_scalar(i[0]) && v_elem(i[1]);
+    verdict(i, L_CLIENT_REG, valid, ClientRegistration::<M>::deserialize(i), |x| eq_bytes(&x.serialize(), i));
+}
+fn client_login(i: &[u8]) {
+    let valid = i.len() >= 37 && v_scalar(i[0]) && v_elem(i[1]) && v_pk(&i[34..36]) && v_sk(i[36]);
+    verdict(i, L_CLIENT_LOGIN, valid, ClientLogin::<M>::deserialize(i), |x| eq_bytes(&x.serialize(), i));
+}
+fn server_login(i: &[u8]) {
+    verdict(i, L_SERVER_LOGIN, true, ServerLogin::<M>::deserialize(i), |x| eq_bytes(&x.serialize(), i));
+}
+
+/// quick: lengths 0, L-1, L, L+1; thorough harnesses sweep 0..=L+64
+fn around<const N: usize>(l: usize, f: fn(&[u8])) {
+    let buf = any_bytes::<N>();
+    f(&buf[..0]);
+    if l >= 1 {
+        f(&buf[..l - 1]);
+    }
+    f(&buf[..l]);
+    f(&buf[..l + 1]);
+}
+
+fn sweep<const N: usize>(from: usize, to: usize, f: fn(&[u8])) {
+    let buf = any_bytes::<N>();
+    let mut len = from;
+    while len <= to {
+        f(&buf[..len]);
+        len += 1;
+    }
+}
+
+harnesses! {
+    fn d_reg_req [unwind = 8] { around::<2>(L_REG_REQ, reg_req); }
+    fn d_reg_resp [unwind = 8] { around::<4>(L_REG_RESP, reg_resp); }
+    fn d_reg_upload [unwind = 54] { around::<51>(L_REG_UPLOAD, reg_upload); }
+    fn d_server_registration [unwind = 54] { around::<51>(L_REG_UPLOAD, server_registration); }
+    fn d_cred_req [unwind = 40] { around::<36>(L_CRED_REQ, cred_req); }
+    fn d_cred_resp [unwind = 122] { around::<118>(L_CRED_RESP, cred_resp); }
+    fn d_cred_fin [unwind = 12] { around::<9>(L_CRED_FIN, cred_fin); }
+    fn d_setup [unwind = 14] { around::<11>(L_SETUP, setup); }
+    fn d_setup_xk [unwind = 16] { around::<12>(L_SETUP_XK, setup_xk); }
+    fn d_client_reg [unwind = 8] { around::<3>(L_CLIENT_REG, client_reg); }
+    fn d_client_login [unwind = 74] { around::<70>(L_CLIENT_LOGIN, client_login); }
+    fn d_server_login [unwind = 30] { around::<25>(L_SERVER_LOGIN, server_login); }
+
+    // thorough: every length 0..=L+64
+    fn d_all_reg_req [unwind = 70] { sweep::<65>(0, 65, reg_req); }
+    fn d_all_reg_resp [unwind = 72] { sweep::<67>(0, 67, reg_resp); }
+    fn d_all_reg_upload_lo [unwind = 60] { sweep::<56>(0, 56, reg_upload); }
+    fn d_all_reg_upload_hi [unwind = 120] { sweep::<114>(57, 114, reg_upload); }
+    fn d_all_cred_req_lo [unwind = 50] { sweep::<40>(0, 40, cred_req); }
+    fn d_all_cred_req_hi [unwind = 104] { sweep::<99>(41, 99, cred_req); }
+    fn d_all_cred_resp_lo [unwind = 122] { sweep::<116>(0, 116, cred_resp); }
+    fn d_all_cred_resp_mid [unwind = 150] { sweep::<140>(118, 140, cred_resp); }
+    fn d_all_cred_resp_hi [unwind = 186] { sweep::<181>(141, 181, cred_resp); }
+    fn d_all_cred_fin [unwind = 78] { sweep::<72>(0, 72, cred_fin); }
+    fn d_all_setup [unwind = 80] { sweep::<74>(0, 74, setup); }
+    fn d_all_setup_xk [unwind = 80] { sweep::<75>(0, 75, setup_xk); }
+    fn d_all_client_reg [unwind = 72] { sweep::<66>(0, 66, client_reg); }
+    fn d_all_client_login_lo [unwind = 76] { sweep::<72>(0, 72, client_login); }
+    fn d_all_client_login_hi [unwind = 138] { sweep::<133>(73, 133, client_login); }
+    fn d_all_server_login [unwind = 94] { sweep::<88>(0, 88, server_login); }
 }
